@@ -273,6 +273,68 @@ def check_pool(L, c, where, share):
     return v
 
 
+def pool_links(L):
+    pb = L.p("pool").encode()
+    got = {}
+    for root, dirs, files in os.walk(pb):
+        for n in files + [x for x in dirs if os.path.islink(os.path.join(root, x))]:
+            fp = os.path.join(root, n)
+            if os.path.islink(fp):
+                got[os.path.relpath(fp, pb)] = os.readlink(fp)
+    return got
+
+
+def pool_wanted(L, c, share):
+    want = {}
+    for d in c.disks.values():
+        base = (share.encode() + b"/" + d.name + b"/") if share else (L.p(d.name.decode()).encode() + b"/")
+        for sub in [f.sub for f in d.files] + [l[1] for l in d.links]:
+            want.setdefault(sub, base + sub)
+    return want
+
+
+def check_repool(L, where, share):
+    """an existing pool must follow the array: a file moved to another disk keeping its relative path and time-stamp,
+    and a changed share prefix, both only change the TARGET of links that already exist"""
+    v = []
+    c = L.content()
+    moved = None
+    for d in c.disks.values():
+        for f in d.files:
+            other = [x for x in L.cfg.disknames if x != d.name.decode()]
+            sub = f.sub.decode(errors="surrogateescape")
+            if f.size > 0 and other and not os.path.lexists(L.p(other[0], sub)) and "/" not in sub:
+                moved = (d.name.decode(), other[0], sub)
+                break
+        if moved:
+            break
+    if moved:
+        src, dst, sub = moved
+        mt = L.mtime_ns(src, sub)
+        data = L.read(src, sub)
+        L.write(dst, sub, data, mt)
+        L.rm(src, sub)
+        r = L.run("sync")
+        if r.rc == 0:
+            r = L.run("pool")
+            c2 = L.content()
+            got, want = pool_links(L), pool_wanted(L, c2, share)
+            if r.rc != 0 or got != want:
+                wrong = [repr((k, got.get(k), want.get(k))) for k in sorted(set(got) | set(want)) if got.get(k) != want.get(k)][:3]
+                v.append(dict(kind="pool-not-following-a-moved-file", where=where, moved=moved, wrong=wrong))
+    # change the share prefix
+    newshare = "/other/share" if share else "/share/added"
+    L.cfg = L.cfg.clone(extra_conf=["share %s" % newshare])
+    L.write_conf()
+    r = L.run("pool")
+    c3 = L.content()
+    got, want = pool_links(L), pool_wanted(L, c3, newshare)
+    if r.rc != 0 or got != want:
+        wrong = [repr((k, got.get(k), want.get(k))) for k in sorted(set(got) | set(want)) if got.get(k) != want.get(k)][:3]
+        v.append(dict(kind="pool-not-following-share-change", where=where, wrong=wrong))
+    return v
+
+
 def job(j):
     cfg, tname, tree_ops, sname, state_ops, share, seed = j
     v = []
@@ -295,6 +357,8 @@ def job(j):
         v += check_dup(L, c, where)
         v += check_status(L, c, where)
         v += check_pool(L, c, where, share)
+        if sname == "synced":
+            v += check_repool(L, where, share)
         # second copy tells the same story
     return dict(viols=v)
 
